@@ -5,13 +5,30 @@ from vlib import log
 from uplc_checks import cj
 
 
+BIGS = {1000001: 2 ** 63, 1000002: -2 ** 63 - 1, 1000003: 2 ** 64, 1000004: -2 ** 64, 1000005: 2 ** 64 + 1, 1000006: 2 ** 127}
+
+
+def bigform(x):
+    """placeholders of MC_Text -> the interchange form of integers beyond a machine word"""
+    if isinstance(x, dict):
+        if isinstance(x.get("v"), int) and x.get("v") in BIGS and (x.get("t") == "int" or x.get("d") == "I"):
+            y = dict(x)
+            y["v"] = 0
+            y["big"] = str(BIGS[x["v"]])
+            return y
+        return {k: bigform(v) for k, v in x.items()}
+    if isinstance(x, list):
+        return [bigform(v) for v in x]
+    return x
+
+
 def render(pieces):
     out = []
     for p in pieces:
         if isinstance(p, str):
             out.append(p)
         elif "n" in p:
-            out.append(str(p["n"]))
+            out.append(str(BIGS.get(p["n"], p["n"])))
         elif "hex" in p:
             out.append("".join("%02x" % b for b in p["hex"]))
         elif "cps" in p:
@@ -32,7 +49,7 @@ def unbig(x):
 
 def judge(term, o, rep, src, spec_text=None):
     bad = []
-    want = cj(term)
+    want = cj(unbig(bigform(term)))
     o = unbig(o)
     ps = o.get("parse_spec_text")
     if ps is not None:
@@ -78,14 +95,14 @@ def c15(tier):
     cases = r.tagged("REPLAY")
     if len(cases) < 150:
         raise vlib.ToolError("MC_Text printed only %d programs" % len(cases))
-    real = [{"id": i, "term": c["term"], "text": render(c["v110"])} for i, c in enumerate(cases)]
+    real = [{"id": i, "term": bigform(c["term"]), "text": render(c["v110"])} for i, c in enumerate(cases)]
     obs = vlib.run_harness("uplc_text", stdin_lines=real)
     for c, rq, o in zip(cases, real, obs):
         if "harness_error" in o:
             raise vlib.ToolError("uplc_text: " + o["harness_error"])
         judge(c["term"], o, rep, "MC_Text #%d" % c["id"], rq["text"])
     # version line 1.0.0 as well
-    obs100 = vlib.run_harness("uplc_text", stdin_lines=[{"id": i, "term": c["term"], "text": render(c["v100"])} for i, c in enumerate(cases[:40])])
+    obs100 = vlib.run_harness("uplc_text", stdin_lines=[{"id": i, "term": bigform(c["term"]), "text": render(c["v100"])} for i, c in enumerate(cases[:40])])
     for c, o in zip(cases[:40], obs100):
         ps = o.get("parse_spec_text", {})
         if "ok" in ps and ps.get("version") != [1, 0, 0]:
